@@ -69,11 +69,21 @@ func c01Encode(kn, wl *kernel.Stream, desc *c01Desc, opts gen.Opts) ([]byte, []w
 			st.EOSEvery = kn.Range(1, 15)
 		}
 		desc.Streams = append(desc.Streams, st)
-		zctx := zed.NewContext()
-		g := gen.New(wl, zctx, opts)
+		// Values handed to one writer may come from several type contexts
+		// (their type ids collide; the writer must tell them apart).
+		gens := []*gen.G{gen.New(wl, zed.NewContext(), opts)}
+		if kn.Chance(1, 2) {
+			for k, n := 0, kn.Range(1, 2); k < n; k++ {
+				gens = append(gens, gen.New(wl, zed.NewContext(), opts))
+			}
+		}
 		w := zngio.NewWriterWithOpts(nopCloser{&buf}, zngio.WriterOpts{Compress: st.Compress, FrameThresh: st.Thresh})
 		for i := 0; i < st.Values; i++ {
 			var t zed.Type
+			g := gens[0]
+			if len(gens) > 1 {
+				g = gens[wl.Intn(len(gens))]
+			}
 			if wl.Chance(1, 2) {
 				t = g.Record(opts.MaxDepth)
 			} else {
